@@ -393,6 +393,7 @@ func c12Rejection(c *vk.Ctx) {
 	var cases []interface{}
 	var meta []c12Damage
 	scratch := c.TempDir("c12-cases-")
+	target := "" // file the damage goes to ("" = the newest snapshot)
 	add := func(d c12Damage, loader, op string) {
 		cd := filepath.Join(scratch, fmt.Sprintf("case%06d", len(cases)))
 		if err := copyDir(base, cd); err != nil {
@@ -400,7 +401,11 @@ func c12Rejection(c *vk.Ctx) {
 			return
 		}
 		if d.class != "intact" {
-			_ = os.WriteFile(filepath.Join(cd, snapName), d.data, 0o600)
+			name := snapName
+			if target != "" {
+				name = target
+			}
+			_ = os.WriteFile(filepath.Join(cd, name), d.data, 0o600)
 		}
 		cases = append(cases, c12OpenCase{Dir: cd, Loader: loader, Op: op, Class: d.class, Desc: d.desc})
 		meta = append(meta, d)
@@ -428,8 +433,33 @@ func c12Rejection(c *vk.Ctx) {
 			add(d, loader, op)
 		}
 	}
+	// damage to a snapshot that is NOT the newest (the second newest ... the oldest retained one): the
+	// intact newest snapshot must still be the one opened, by readers and writers alike
+	for si, ep := range snaps[1:] {
+		name := fmt.Sprintf("%012x.snp", ep)
+		ob, err := os.ReadFile(filepath.Join(base, name))
+		if err != nil {
+			continue
+		}
+		ds := c12Damages(c, ob, r, false)
+		want := c.Pick(16, 150)
+		stride := len(ds)/want + 1
+		for i := si % stride; i < len(ds); i += stride {
+			d := ds[i]
+			target = name
+			d.class, d.desc = "older:"+d.class, fmt.Sprintf("snapshot %d of %v: %s", ep, snaps, d.desc)
+			for li, loader := range []string{"mmap", "nommap"} {
+				op := "writer"
+				if (i/stride+li)%3 == 2 {
+					op = "reader"
+				}
+				add(d, loader, op)
+			}
+		}
+	}
 	results := vk.RunChildren(c.Scratch(), "c12open", cases, vk.ChildOpts{PerChild: 150, Parallel: runtime.NumCPU(), CaseTimeout: 60 * time.Second, RlimitMB: 3072})
 	var refAlloc uint64
+	var intactIDs []string
 	var fallbackIDs []string
 	var fallbackEpoch uint64
 	for i := 0; i < nRef; i++ {
@@ -443,6 +473,8 @@ func c12Rejection(c *vk.Ctx) {
 		}
 		if meta[i].class == "fallback-reference" {
 			fallbackIDs, fallbackEpoch = res.IDs, res.Epoch
+		} else if res.Epoch == newest {
+			intactIDs = res.IDs
 		}
 	}
 	// the state to fall back to is what the same directory gives with the newest snapshot file absent;
@@ -480,6 +512,15 @@ func c12Rejection(c *vk.Ctx) {
 			c.Violate("damaged-snapshot-allocation", fmt.Sprintf("%s (%s): opening allocated %d bytes, budget %d (intact open %d + 64 x %d + 1 MiB)", d.class, d.desc, out.AllocBytes, budget, refAlloc, len(d.data)), wit)
 		}
 		c.EventMax("max_alloc_bytes_on_damaged_open", int64(out.AllocBytes))
+		if strings.HasPrefix(d.class, "older:") {
+			if out.Err != "" || out.Epoch != newest || fmt.Sprint(out.IDs) != fmt.Sprint(intactIDs) {
+				c.Violate("damaged-older-snapshot-disturbs-open:"+cs.Op, fmt.Sprintf("%s (%s), %s loader, Open%s: expected the intact newest epoch %d with %v, got epoch %d %v err=%q", d.class, d.desc, cs.Loader, strings.Title(cs.Op), newest, intactIDs, out.Epoch, out.IDs, out.Err), wit)
+				continue
+			}
+			c.DistinctHash(vk.Hash64(d.class + d.desc + cs.Loader))
+			c.Event("newest_opened_despite_damaged_older_snapshot", 1)
+			continue
+		}
 		if out.Err != "" {
 			c.Violate("damaged-snapshot-no-fallback", fmt.Sprintf("%s (%s), %s loader, Open%s: failed instead of falling back to the intact older snapshot: %s", d.class, d.desc, cs.Loader, strings.Title(cs.Op), out.Err), wit)
 			continue
@@ -584,7 +625,8 @@ func runC12(c *vk.Ctx) {
 		"rejection: a directory with an intact older snapshot and a newer one, the newer file replaced by every truncation, every single-bit flip, appended tails, extensions with a recomputed CRC, length-field attacks with a valid CRC, garbage; opened in child processes through OpenReader and OpenWriter with the mmap and the non-mmap loader; " +
 		"decoder: length attacks, truncations and random mutations straight into ReadFrom in children with an address-space limit; distinct non-trivial = distinct damaged files that were rejected and fell back, plus distinct (class, decoder error)")
 	c.Assume("allocation is measured as runtime.MemStats.TotalAlloc delta in the child, budget = cost of opening the intact index + 64 x file length + 1 MiB; RLIMIT_AS 3 GiB turns giant allocations into a dead child",
-		"a damaged newer snapshot must lead to the older intact one (content and epoch are both checked)")
+		"a damaged newer snapshot must lead to the older intact one (content and epoch are both checked)",
+		"a sample of the same damages applied to each retained snapshot that is NOT the newest must leave OpenReader and OpenWriter on the intact newest one")
 	c12RoundTrip(c, c.Pick(1500, 60000))
 	c12Decoder(c)
 	c12Rejection(c)
@@ -597,4 +639,5 @@ func runC12(c *vk.Ctx) {
 	c.Require("roundtrips_crossing_4096_byte_buffer", 10)
 	c.Require("damaged_truncation", 20)
 	c.Require("damaged_bitflip", 100)
+	c.Require("newest_opened_despite_damaged_older_snapshot", 20)
 }
